@@ -535,6 +535,7 @@ def table : List (String × String × String × Class × String) :=
    ("output_streams.py", "JSONOutputStream.encoders", "container", .constTable, "type -> encoder; only read (C08)"),
    ("output_streams.py", "OutputStream.encoders", "container", .constTable, "type -> encoder; only read (C08)"),
    ("output_streams.py", "SqlDbOutputStream.encoders", "container", .constTable, "type -> encoder; only read (C08)"),
+   ("output_streams.py", "SqlTextOutputStream.encoders", "container", .constTable, "type -> encoder; only read (C08; added by e8cf4d3)"),
    ("parse_recipe_yaml.py", "collection_rules", "container", .constTable, "statement kind -> parser; only read"),
    ("plugins.py", "ScalarTypes", "call:T.get_args", .constTable, "tuple of types"),
    ("row_history.py", "_DISPATCH_TABLE", "container", .constTable, "copied into each RestrictedPickler (`copyreg.dispatch_table.copy(); update(dispatchers)` writes the copy)"),
